@@ -102,6 +102,7 @@ type gen struct {
 	nilSeen  map[string][]*ssa.BasicBlock
 	volatile map[string]bool // refs of cells captured by spawned goroutines
 	materialised map[string]string // interior location → object it was materialised as
+	sprintfOrigin map[string]string // string term → constant fmt.Sprintf format it was built from
 	inheritNoPanic bool
 	dryWritten map[*ssa.BasicBlock]map[string]bool
 	resultVals []Val // bound while elaborating ensures
